@@ -308,11 +308,32 @@ func (f *Frame) unop(in *ssa.UnOp, st *State, reach Term) {
 		}
 	case token.ARROW:
 		c.note("channel receive: received value havocked")
+		f.recordReached(in, reach)
+		// ghost chanPending(ch): number of items the (finite, eventually closed)
+		// stream behind ch still delivers; a receive takes one, ok is false exactly
+		// when none is left
+		var pendOld Term
+		var pendKey string
+		if sf := c.db.specs["chanPending"]; sf != nil && sf.Ghost && len(sf.Params) == 1 {
+			pendKey = c.ghostKey(sf)
+			arr := c.get(st, pendKey)
+			if elemOfArr(arr.Sort) == c.I() {
+				pendOld = app(c.I(), "select", arr, f.val(in.X))
+				c.assume(tImp(reach, c.ile(c.intConst(0, c.I()), pendOld)), false)
+				c.assumed["channels with a chanPending ghost deliver a finite stream and are closed at its end"] = true
+			}
+		}
 		if in.CommaOk {
 			tup := in.Type().(*types.Tuple)
 			v := c.fresh(f.name(in.Name()+"_v"), c.sortOf(tup.At(0).Type()))
 			c.assume(c.valueInv(v, tup.At(0).Type(), st), false)
 			ok := c.fresh(f.name(in.Name()+"_ok"), SBool)
+			if pendOld.S != "" {
+				z := c.intConst(0, c.I())
+				c.assume(tEq(ok, c.ilt(z, pendOld)), false)
+				arr := c.get(st, pendKey)
+				c.set(st, pendKey, tStore(arr, f.val(in.X), tIte(ok, c.isub(pendOld, c.intConst(1, c.I())), z)))
+			}
 			f.tuples[in] = []Term{v, ok}
 		} else {
 			v := c.fresh(f.name(in.Name()), c.sortOf(in.Type()))
@@ -567,6 +588,12 @@ func (f *Frame) writeSet(blocks map[*ssa.BasicBlock]bool) (map[string]bool, bool
 				case *ssa.MapUpdate:
 					has, val, ln := fr.c.mapComps(in.Map.Type().Underlying().(*types.Map))
 					comps[has], comps[val], comps[ln] = true, true, true
+				case *ssa.UnOp:
+					if in.Op == token.ARROW {
+						if sf := fr.c.db.specs["chanPending"]; sf != nil && sf.Ghost && len(sf.Params) == 1 {
+							comps[fr.c.ghostKey(sf)] = true
+						}
+					}
 				case *ssa.Slice:
 					if pt, ok := in.X.Type().Underlying().(*types.Pointer); ok {
 						if at, ok := pt.Elem().Underlying().(*types.Array); ok {
@@ -701,9 +728,15 @@ func sliceRoots(v ssa.Value, blocks map[*ssa.BasicBlock]bool) ([]ssa.Value, bool
 
 // loopBases refines the write set of a loop to object granularity where the
 // written objects are either loop-invariant pointers or allocated in the loop.
-func (f *Frame) loopBases(blocks map[*ssa.BasicBlock]bool) map[string]*compBases {
+func (f *Frame) loopBases(blocks map[*ssa.BasicBlock]bool, pre *State, written map[string]bool) map[string]*compBases {
 	c := f.c
 	out := map[string]*compBases{}
+	shapeLocOf := func(v ssa.Value) *Loc {
+		saved := f.shape
+		f.shape = true
+		defer func() { f.shape = saved }()
+		return f.locOf(v)
+	}
 	get := func(k string) *compBases {
 		if out[k] == nil {
 			out[k] = &compBases{}
@@ -771,6 +804,23 @@ func (f *Frame) loopBases(blocks map[*ssa.BasicBlock]bool) map[string]*compBases
 			}
 			cb.bases = append(cb.bases, t)
 		default:
+			// the content of a captured variable's cell that the loop never writes
+			if u, ok := root.(*ssa.UnOp); ok && u.Op == token.MUL && pre != nil && !elem {
+				if fv, ok := u.X.(*ssa.FreeVar); ok {
+					stable := true
+					for _, ck := range c.compsOfLoc(shapeLocOf(fv)) {
+						if written[ck] {
+							stable = false
+						}
+					}
+					if stable {
+						if t := c.load(pre, f.locOf(fv)); t.Sort == SInt {
+							cb.bases = append(cb.bases, t)
+							return
+						}
+					}
+				}
+			}
 			cb.unknown = true
 		}
 	}
@@ -795,6 +845,12 @@ func (f *Frame) loopBases(blocks map[*ssa.BasicBlock]bool) map[string]*compBases
 				has, val, ln := c.mapComps(in.Map.Type().Underlying().(*types.Map))
 				for _, k := range []string{has, val, ln} {
 					addBase(k, in.Map, false)
+				}
+			case *ssa.UnOp:
+				if in.Op == token.ARROW {
+					if sf := c.db.specs["chanPending"]; sf != nil && sf.Ghost && len(sf.Params) == 1 {
+						addBase(c.ghostKey(sf), in.X, false)
+					}
 				}
 			case *ssa.Slice:
 				if pt, ok := in.X.Type().Underlying().(*types.Pointer); ok {
@@ -853,7 +909,7 @@ func (f *Frame) loopBases(blocks map[*ssa.BasicBlock]bool) map[string]*compBases
 							}
 						}
 						// ghost attribute of an argument object: g(argN)
-						if t.obj == nil && len(t.keys) == 1 && c.refKeyedGhost[t.comp] {
+						if t.obj == nil && len(t.keys) >= 1 && c.refKeyedGhost[t.comp] {
 							for i, n := range names {
 								if t.keys[0].S == n && i < len(args) {
 									addBase(t.comp, args[i], false)
